@@ -66,10 +66,51 @@ def correspondence(ctx):
                 polys = polys[:1]       # only N next to it: nothing else separates the states it would have to separate
             polys.append("1 %s %d %s %s" % (pipeline.val(1.0), 2 * k, " ".join("0 %d" % i for i in mm),
                                              " ".join("1 %d" % i for i in reversed(mm))))
+        if r.chance(1, 3):
+            # a constant offset does not change additivity or conservation: sum_i x_i n_i + c (eigenvalue of the vacuum = c)
+            j = r.below(len(polys[:2]))
+            n0, rest = polys[j].split(" ", 1)
+            polys[j] = "%d %s 0 %s" % (int(n0) + 1, pipeline.val(r.choice([1.0, 0.5, -2.0, 0.25])), rest)
+        if r.chance(1, 3) and M >= 2:
+            # linear part that touches EVERY mode + a non-linear conserved part (e.g. the atomic-limit energy itself):
+            # conserved and diagonal, but not additive -- must be rejected
+            mm = list(range(M))
+            r.shuffle(mm)
+            i, j = sorted(mm[:2])
+            lin = " ".join("%s 2 0 %d 1 %d" % (pipeline.val(r.choice([1.0, -0.5, 0.25, 2.0])), q, q) for q in range(M))
+            cand = "%d %s %s 4 0 %d 0 %d 1 %d 1 %d" % (M + 1, lin, pipeline.val(r.choice([1.0, -1.0, 2.0, 0.5])), i, j, j, i)
+            if r.chance(1, 2):
+                polys = [cand]
+            else:
+                polys.append(cand)
         s = pipeline.core_script(m, order=0, symm="symm custom %d %s" % (len(polys), " ".join(polys)), early=r.chance(1, 2))
         s += ["dm %s" % pipeline.hx(1.0), "fops"] + ["fop1 quad %d %d" % (r.below(M), r.below(M)) for _ in range(3)]
         scripts.append(s)
         metas.append(("custom", m))
+    # superconducting (N-breaking) models: on-site singlet pairing Delta (c+_up c+_dn + h.c.) conserves S_z-like charges
+    # sum_i w_i n_i with w_up + w_dn = 0, also when a constant is added; N is NOT offered, so the partition rests on the
+    # offered integral alone
+    for _ in range(100 if thorough else 12):
+        m = pipeline.gen_sites(r, r.choice([2, 4, 4]), spin_half=True, nsites=r.choice([1, 2, 2]))
+        pipeline.add_random_terms(r, m, False, allow=("level", "coulombS", "hop", "level"))
+        for l, no, ns in m.sites:
+            if ns == 2 and r.chance(3, 4):
+                o = r.below(no)
+                pipeline.add_user_term(m, pipeline.rand_amp(r, False), [(1, l, o, 0), (1, l, o, 1)])
+        M = m.modes()
+        idx = m.index_list()
+        w = r.choice([1.0, 0.5, 2.0, 0.25])
+        c = r.choice([0.0, 1.0, float(len(m.sites)), 0.5, -1.0, 1.0])
+        terms = ["%s 2 0 %d 1 %d" % (pipeline.val(w if sp == 0 else -w), i, i) for i, (l, o, sp) in enumerate(idx)]
+        if c != 0.0:
+            terms.insert(r.below(len(terms) + 1), "%s 0" % pipeline.val(c))
+        polys = ["%d %s" % (len(terms), " ".join(terms))]
+        if r.chance(1, 4):
+            polys.append("%d %s" % (M, " ".join("%s 2 0 %d 1 %d" % (pipeline.val(1.0), i, i) for i in range(M))))   # N: rejected here
+        s = pipeline.core_script(m, order=r.below(2), symm="symm custom %d %s" % (len(polys), " ".join(polys)), early=r.chance(1, 3))
+        s += ["dm %s" % pipeline.hx(1.0), "fops"] + ["fop1 quad %d %d" % (r.below(M), r.below(M)) for _ in range(3)]
+        scripts.append(s)
+        metas.append(("custom_pairing", m))
     res = pipeline.run_batch(scripts, "real")
     pipeline.collect(ctx, res, ["C07"])
     for (symm, m), s, rs in zip(metas, scripts, res):
